@@ -124,6 +124,7 @@ var st struct {
 	checkGoid     bool // verify the caller's goroutine identity at every yield
 	libGoroutines bool // the instrumented library contains go statements
 	helpers       int  // blocking sends handed to helper goroutines, not yet delivered
+	softBlock     bool // a task parked in a select: a runtime timer may end the wait, no deadlock verdict
 	goids         [MaxTasks]uint64
 	seqGoid       uint64
 	foreign       uint64
@@ -249,6 +250,8 @@ func begin(cfg Config, n int) {
 	st.stuck = 0
 	st.aborted = false
 	st.helpers = 0
+	st.softBlock = false
+	timersReset()
 	condReset()
 	st.seq = false
 	st.res = Result{PerTask: make([]uint64, n), HotYields: make([]uint64, n)}
@@ -523,7 +526,7 @@ func blockedYield() bool {
 	t := st.cur
 	st.stuck++
 	if st.stuck > 2*st.ntasks+2 {
-		if st.libGoroutines || st.helpers > 0 {
+		if st.libGoroutines || st.helpers > 0 || st.softBlock {
 			// somebody outside the scheduler (a goroutine of the library, a helper
 			// performing a blocking send) may still make progress: no verdict here;
 			// give the OS scheduler a chance and keep polling.  A real deadlock ends
@@ -547,7 +550,7 @@ func blockedYield() bool {
 		// nobody else to run: a deadlock, unless somebody outside the scheduler
 		// (library goroutine, send helper) can still unblock us - then the caller
 		// simply blocks for real
-		if !st.libGoroutines && st.helpers == 0 {
+		if !st.libGoroutines && st.helpers == 0 && !st.softBlock {
 			st.res.Deadlock = true
 		}
 		return false
@@ -624,13 +627,31 @@ func Recv2[T any](ch <-chan T) (T, bool) {
 			return v, ok
 		default:
 		}
+		if timersPoll(everybodyStuck()) {
+			continue
+		}
 		if !blockedYield() {
+			if timersPoll(true) {
+				continue
+			}
 			markSelfDeadlockChan()
 			if deadlocked() {
 				DeadlockHook()
 			}
 			v, ok := <-ch
 			return v, ok
+		}
+	}
+}
+
+// ChanSeq is the shim for `for v := range ch`: every receive goes through Recv2.
+func ChanSeq[C ~chan T | ~<-chan T, T any](ch C) iter.Seq[T] {
+	return func(yield func(T) bool) {
+		for {
+			v, ok := Recv2((<-chan T)(ch))
+			if !ok || !yield(v) {
+				return
+			}
 		}
 	}
 }
@@ -678,6 +699,92 @@ func Send[T any](ch chan<- T, v T) {
 //go:norace
 //go:noinline
 func helperDelta(d int) { st.helpers += d }
+
+// WGWait is the shim for sync.WaitGroup.Wait (x.Wait() is rewritten to
+// simrt.WGWait(x.Wait)).  A WaitGroup has no TryWait, so the real Wait runs in a
+// helper goroutine and the task hands the token on until the helper reports that
+// the counter reached zero: callers that wait for each other (single-flight
+// de-duplication) stay runnable under the scheduler.  The happens-before edge
+// Done -> Wait -> close(done) -> receive is real, so the race detector sees the
+// same synchronisation as in the shipped code.
+func WGWait(wait func()) {
+	if !isActive() || !multiTask() {
+		wait()
+		return
+	}
+	done := make(chan struct{})
+	helperDelta(1)
+	go func() {
+		defer close(done)
+		wait()
+	}()
+	for {
+		// a counter that is already zero lets the helper finish within
+		// microseconds: a short real-time grace keeps the schedule from depending
+		// on how fast the helper was started
+		select {
+		case <-done:
+			helperDelta(-1)
+			progress()
+			return
+		case <-time.After(graceWait):
+		}
+		if !blockedYield() {
+			if deadlocked() {
+				DeadlockHook()
+			}
+			<-done
+			helperDelta(-1)
+			return
+		}
+	}
+}
+
+const graceWait = 500 * time.Microsecond
+
+//go:norace
+//go:noinline
+func multiTask() bool { return st.ntasks >= 2 && !st.seq }
+
+// SelectPark is called from the default clause the instrumenter adds to a select
+// statement that had none: no case is ready, the task hands the token on and polls
+// again when it is scheduled next.  Outside the scheduler (or with nobody to hand
+// over to) the select degrades to a polite busy-wait, which only a goroutine of
+// the library or a runtime timer can end; a real deadlock ends in the watchdog or,
+// when nobody outside the scheduler exists, in the deadlock verdict.
+func SelectPark() {
+	if isActive() {
+		if timersPoll(everybodyStuck()) {
+			return
+		}
+		markSoftBlock()
+		if blockedYield() {
+			return
+		}
+		if timersPoll(true) {
+			return
+		}
+		if deadlocked() {
+			DeadlockHook()
+		}
+	}
+	time.Sleep(50 * time.Microsecond)
+}
+
+//go:norace
+//go:noinline
+func markSoftBlock() {
+	if st.active {
+		st.softBlock = true
+	}
+}
+
+// SelectDone is inserted at the head of every case of a shimmed select.
+func SelectDone() {
+	if isActive() {
+		progress()
+	}
+}
 
 //go:norace
 //go:noinline
@@ -875,17 +982,139 @@ func Sleep(d time.Duration) {
 	time.Sleep(d)
 }
 
-// After replaces time.After: the simulated clock jumps by d and the channel is ready.
+// After replaces time.After with a simulated timer owned by the calling task.  One
+// timer in four (scheduler PRNG) fires at once - the clock jumps by d, which is what
+// a stalled caller would see; the others fire when simulated time has passed their
+// deadline (Sleep, another timer, the harness) or when every task is blocked, in
+// which case the clock jumps to the earliest deadline of the polling task
+// (discrete-event time: waiting costs no real time).  A timer is fired by its owner
+// while it polls (shimmed receive or select), so that no synchronisation between
+// tasks is added that the shipped code does not have.
 func After(d time.Duration) <-chan time.Time {
 	if _, ok := simNow(); ok {
-		if d > 0 {
-			simAdvance(int64(d))
-		}
 		ch := make(chan time.Time, 1)
-		ch <- Now()
+		if d <= 0 || !timerAdd(int64(d), ch) {
+			if d > 0 {
+				simAdvance(int64(d))
+			}
+			ch <- Now()
+		}
 		return ch
 	}
 	return time.After(d)
+}
+
+const maxTimers = 8
+
+type simTimer struct {
+	at   int64
+	ch   chan time.Time
+	live bool
+}
+
+var simTimers [MaxTasks][maxTimers]simTimer
+var timerStats struct{ created, early, due, jumped uint64 }
+
+// TimerStats reports simulated timers created / fired at once / fired when due /
+// fired by a clock jump because every task was blocked.
+//
+//go:norace
+//go:noinline
+func TimerStats() (created, early, due, jumped uint64) {
+	return timerStats.created, timerStats.early, timerStats.due, timerStats.jumped
+}
+
+// timerAdd registers a pending timer for the running task; false means "fire now".
+//
+//go:norace
+//go:noinline
+func timerAdd(d int64, ch chan time.Time) bool {
+	timerStats.created++
+	if splitmix(&st.srng)&3 == 0 {
+		timerStats.early++
+		return false
+	}
+	t := st.cur
+	if t < 0 || t >= MaxTasks {
+		return false
+	}
+	for i := range simTimers[t] {
+		if !simTimers[t][i].live {
+			simTimers[t][i].at = simClock + d
+			simTimers[t][i].ch = ch
+			simTimers[t][i].live = true
+			return true
+		}
+	}
+	return false
+}
+
+// timerPick returns a timer of the running task that is due; with force it
+// returns the pending timer with the earliest deadline and moves the clock there.
+//
+//go:norace
+//go:noinline
+func timerPick(force bool) (chan time.Time, int64) {
+	t := st.cur
+	if t < 0 || t >= MaxTasks {
+		return nil, 0
+	}
+	best := -1
+	for i := range simTimers[t] {
+		tm := &simTimers[t][i]
+		if tm.live && (best < 0 || tm.at < simTimers[t][best].at) {
+			best = i
+		}
+	}
+	if best < 0 {
+		return nil, 0
+	}
+	tm := &simTimers[t][best]
+	if tm.at > simClock {
+		if !force {
+			return nil, 0
+		}
+		simClock = tm.at
+		timerStats.jumped++
+	} else {
+		timerStats.due++
+	}
+	tm.live = false
+	ch := tm.ch
+	tm.ch = nil
+	st.stuck = 0
+	return ch, simClock
+}
+
+//go:norace
+//go:noinline
+func everybodyStuck() bool { return !multiTask() || st.stuck > st.ntasks }
+
+//go:norace
+//go:noinline
+func timersReset() {
+	for t := range simTimers {
+		for i := range simTimers[t] {
+			simTimers[t][i] = simTimer{}
+		}
+	}
+}
+
+// timersPoll fires the running task's timers that are due (all of them), or with
+// force the earliest pending one; it reports whether anything fired.
+func timersPoll(force bool) bool {
+	fired := false
+	for {
+		ch, now := timerPick(force && !fired)
+		if ch == nil {
+			return fired
+		}
+		select {
+		case ch <- time.Unix(0, now).UTC():
+		default:
+		}
+		fired = true
+	}
 }
 
 // DeadlockHook is called when every unfinished task is blocked.  The harness
